@@ -35,7 +35,7 @@ static void on_fault( int )
 
 struct Outcome
 {
-   int fault = 0, hook = 0, beyond = 0;
+   int fault = 0, hook = 0, beyond = 0, moved = 0;
    const char* hook_what = "";
 };
 
@@ -51,7 +51,9 @@ static Outcome run( const std::string& s, int mode )
    if( sigsetjmp( g_jmp, 1 ) == 0 ) {
       p::memory_input< P, p::eol::lf_crlf, const char* > in( data, data + s.size(), "src" );
       try {
-         (void)p::parse< Rule >( in );
+         // rewind_mode::required: a local failure must leave the cursor where it was (C02, for the rules the table engine does not reach)
+         const bool ok = p::parse< Rule, p::nothing, p::normal, p::apply_mode::action, p::rewind_mode::required >( in );
+         if( !ok && in.current() != data ) o.moved = 1;
       }
       catch( ... ) {
       }
@@ -109,6 +111,7 @@ static void check( const RuleEntry& r, const std::string& s )
          if( o.fault ) vf::violation( std::string( "C03|memory access outside the input buffer (guard page fault)|" ) + r.name, det, cs );
          if( o.hook ) vf::violation( std::string( "C03|" ) + o.hook_what + "|" + r.name, det, cs );
          if( o.beyond ) vf::violation( std::string( "C03|cursor outside the input after the run|" ) + r.name, det, cs );
+         if( o.moved ) vf::violation( std::string( "C02|local failure with rewind_mode::required left the cursor moved|" ) + r.name, det, cs );
       }
    }
 }
